@@ -25,6 +25,7 @@ import (
 	"github.com/LiskHQ/lisk-engine/pkg/consensus/liskbft"
 	"github.com/LiskHQ/lisk-engine/pkg/crypto"
 	"github.com/LiskHQ/lisk-engine/pkg/db"
+	"github.com/LiskHQ/lisk-engine/pkg/db/diffdb"
 	"github.com/LiskHQ/lisk-engine/pkg/log"
 	"github.com/LiskHQ/lisk-engine/pkg/p2p"
 
@@ -109,6 +110,7 @@ type valRec struct {
 type paramRec struct {
 	Height uint32   `json:"h"`
 	Thr    uint64   `json:"t"`
+	Pre    uint64   `json:"pt"`
 	Vals   []valRec `json:"v"`
 }
 type hdrRec struct {
@@ -126,6 +128,7 @@ type scnRec struct {
 	Mhp    uint32      `json:"mhp"`
 	Mhc    uint32      `json:"mhc"`
 	Params []paramRec  `json:"params"`
+	Sched  []paramRec  `json:"sched"` // the scenario's own parameter schedule (key = first height in force)
 	Chain  []hdrRec    `json:"chain"`
 	Ops    []opRec     `json:"ops"`
 }
@@ -143,24 +146,28 @@ func code32(b []byte) uint64 {
 }
 
 type scenario struct {
-	r       *hx.Rng
-	nkeys   int
-	pks     [][]byte
-	sks     [][]byte
-	addrs   [][]byte
-	exec    *consensus.Executer
-	chain   *blockchain.Chain
-	headers map[uint32]*blockchain.BlockHeader
-	idCode  map[string]uint64
-	sigTab  map[string]sigSym
-	single  map[string][]byte // (key,cert id) -> signature bytes
-	tip     uint32
-	rec     *scnRec
-	id      int
-	db      *db.DB
-	current liskbft.BFTValidators
-	lastGen map[string]uint32
-	ts0     uint32
+	r        *hx.Rng
+	nkeys    int
+	pks      [][]byte
+	sks      [][]byte
+	addrs    [][]byte
+	exec     *consensus.Executer
+	chain    *blockchain.Chain
+	headers  map[uint32]*blockchain.BlockHeader
+	idCode   map[string]uint64
+	sigTab   map[string]sigSym
+	single   map[string][]byte // (key,cert id) -> signature bytes
+	tip      uint32
+	rec      *scnRec
+	id       int
+	db       *db.DB
+	current  liskbft.BFTValidators
+	lastGen  map[string]uint32
+	ts0      uint32
+	curPre   uint64
+	curCert  uint64
+	sched    []paramRec
+	certOnly map[uint32]bool
 }
 
 func (s *scenario) blockCode(id []byte) uint64 {
@@ -291,9 +298,15 @@ func (s *scenario) randomParams() (uint64, uint64, liskbft.BFTValidators) {
 	idxs = idxs[:n]
 	vals := liskbft.BFTValidators{}
 	total := uint64(0)
-	for _, i := range idxs {
+	mode := r.Intn(3)
+	small := mode == 0
+	for j, i := range idxs {
 		w := uint64(1 + r.Intn(9))
-		if r.Intn(8) == 0 {
+		if small {
+			w = uint64(1 + r.Intn(3))
+		} else if mode == 1 { // pairwise distinct subset sums: every mix-up of weights changes some signer set's weight
+			w = uint64(1) << uint((j+perm)%len(idxs))
+		} else if r.Intn(8) == 0 {
 			w = uint64(1 + r.Intn(1000))
 		}
 		total += w
@@ -301,7 +314,48 @@ func (s *scenario) randomParams() (uint64, uint64, liskbft.BFTValidators) {
 	}
 	lo := total/3 + 1
 	thr := func() uint64 { return lo + uint64(r.Intn(int(total-lo+1))) }
-	return thr(), thr(), vals
+	pre, cert := thr(), thr()
+	// precommit and certificate thresholds close to each other, in both orders, so that signer sets with a weight
+	// between the two exist
+	switch r.Intn(4) {
+	case 0:
+		if pre < total {
+			cert = pre + 1
+		}
+	case 1:
+		if cert < total {
+			pre = cert + 1
+		}
+	case 2:
+		if pre+2 <= total {
+			cert = pre + 2
+		}
+	}
+	return pre, cert, vals
+}
+
+// setParams calls SetBFTParameters and records the scenario's own parameter schedule (what must be in force from
+// height key on); an update that changes nothing is not an entry (SetBFTParameters ignores it by specification)
+func (s *scenario) setParams(store *diffdb.Database, key uint32, pre, cert uint64, vals liskbft.BFTValidators) {
+	must(s.exec.VerifC06LiskBFT().API().SetBFTParameters(store, pre, cert, vals))
+	same := s.current != nil && pre == s.curPre && cert == s.curCert && len(vals) == len(s.current)
+	if same {
+		for i := range vals {
+			if string(vals[i].Address()) != string(s.current[i].Address()) || vals[i].BFTWeight() != s.current[i].BFTWeight() ||
+				string(vals[i].BLSKey()) != string(s.current[i].BLSKey()) {
+				same = false
+			}
+		}
+	}
+	s.current, s.curPre, s.curCert = vals, pre, cert
+	if same {
+		return
+	}
+	pr := paramRec{Height: key, Thr: cert, Pre: pre, Vals: []valRec{}}
+	for _, v := range vals {
+		pr.Vals = append(pr.Vals, valRec{Addr: s.addrCode(v.Address()), Weight: v.BFTWeight(), Key: s.keyIdx(v.BLSKey())})
+	}
+	s.sched = append(s.sched, pr)
 }
 
 func must(err error) {
@@ -338,12 +392,11 @@ func newScenario(r *hx.Rng, id int, nkeys int, length int) *scenario {
 	store := s.exec.VerifC06ConsensusStore()
 	must(bft.InitGenesisState(genesis.Header.Readonly(), store))
 	p, c, vals := s.randomParams()
-	must(bft.API().SetBFTParameters(store, p, c, vals))
+	s.setParams(store, 1, p, c, vals)
 	batch := database.NewBatch()
 	store.Commit(batch)
 	must(s.chain.AddBlock(batch, genesis, nil, 0, false))
 	s.headers[0] = genesis.Header
-	s.current = vals
 	s.lastGen = map[string]uint32{}
 	s.db = database
 	s.ts0 = ts0
@@ -361,6 +414,12 @@ func newScenario(r *hx.Rng, id int, nkeys int, length int) *scenario {
 		changeAt[uint32(length-3-r.Intn(12))] = true
 		if r.Intn(2) == 0 {
 			changeAt[uint32(length-16-r.Intn(20))] = true
+		}
+	}
+	s.certOnly = map[uint32]bool{}
+	for i := 0; i < 2; i++ { // certificate-threshold-only updates shortly before the tip (inside the certifiable window)
+		if length > 6 {
+			s.certOnly[uint32(length-2-r.Intn(6))] = true
 		}
 	}
 	s.extend(length, changeAt)
@@ -387,8 +446,23 @@ func (s *scenario) extend(n int, changeAt map[uint32]bool) {
 		s.lastGen[string(gen)] = h
 		if changeAt[h] {
 			p, c, vals := s.randomParams()
-			must(bft.API().SetBFTParameters(store, p, c, vals))
-			s.current = vals
+			s.setParams(store, h+1, p, c, vals)
+		} else if s.certOnly[h] {
+			// only the certificate threshold changes (validators and precommit threshold stay)
+			total := uint64(0)
+			for _, v := range s.current {
+				total += v.BFTWeight()
+			}
+			lo := total/3 + 1
+			c := lo + uint64(r.Intn(int(total-lo+1)))
+			if c == s.curCert {
+				if c < total {
+					c++
+				} else if c > lo {
+					c--
+				}
+			}
+			s.setParams(store, h+1, s.curPre, c, s.current)
 		}
 		_, precommitted, _, err = bft.API().GetBFTHeights(store)
 		must(err)
@@ -418,7 +492,7 @@ func (s *scenario) snapshotEnv(phase int) {
 		}
 		prm, err := bft.API().GetBFTParameters(store, h)
 		must(err)
-		pr := paramRec{Height: h, Thr: prm.CertificateThreshold(), Vals: []valRec{}}
+		pr := paramRec{Height: h, Thr: prm.CertificateThreshold(), Pre: prm.PrecommitThreshold(), Vals: []valRec{}}
 		for _, v := range prm.Validators() {
 			pr.Vals = append(pr.Vals, valRec{Addr: s.addrCode(v.Address()), Weight: v.BFTWeight(), Key: s.keyIdx(v.BLSKey())})
 		}
@@ -432,6 +506,7 @@ func (s *scenario) snapshotEnv(phase int) {
 	op := opRec{}
 	s.dumpPool(&op)
 	rec.PG0, rec.PNG0 = op.PG, op.PNG
+	rec.Sched = append([]paramRec{}, s.sched...)
 	s.rec = rec
 }
 
@@ -1026,6 +1101,9 @@ func main() {
 			ch := map[uint32]bool{}
 			if r.Intn(2) == 0 {
 				ch[s.tip+1+uint32(r.Intn(k))] = true
+			}
+			if r.Intn(2) == 0 {
+				s.certOnly[s.tip+1+uint32(r.Intn(k))] = true
 			}
 			s.extend(k, ch)
 			s.snapshotEnv(ph)
